@@ -13,6 +13,9 @@ case "$prop" in
   C08) targets="c08_ops:80000" ;;
   C09) targets="c09_events:500000" ;;
   C10) targets="c10_events:400000" ;;
+  C16) targets="c16_ops:8000" ;;
+  C17) targets="c17_votes:8000" ;;
+  C18) targets="c18_events:600000" ;;
   *) exit 0 ;;
 esac
 export CARGO_NET_OFFLINE=true
